@@ -8,10 +8,152 @@ import (
 )
 
 type State struct {
-	heap map[int]Value
-	pc   *smt.Term
-	dead bool
+	heap  map[int]Value
+	pc    *smt.Term
+	dead  bool
+	facts map[int]*smt.Term // term id -> constant it is known to equal on this path
+	clauses []*smt.Term     // disjunctive path conditions (checked by propagation when forking)
 }
+
+// under simplifies a condition with what is known on this path (cheap infeasibility pruning):
+// facts maps a term id to the constant it equals (True/False for Boolean terms).
+func (st *State) under(c *smt.Term, depth int) *smt.Term {
+	return underFacts(st.facts, nil, c, depth)
+}
+
+func underFacts(f1, f2 map[int]*smt.Term, c *smt.Term, depth int) *smt.Term {
+	if (len(f1) == 0 && len(f2) == 0) || c.IsConst() || depth > 8 {
+		return c
+	}
+	if k, ok := f1[c.ID]; ok {
+		return k
+	}
+	if k, ok := f2[c.ID]; ok {
+		return k
+	}
+	look := func(t *smt.Term) (*smt.Term, bool) {
+		if k, ok := f1[t.ID]; ok {
+			return k, true
+		}
+		k, ok := f2[t.ID]
+		return k, ok
+	}
+	switch c.Op {
+	case smt.OEq:
+		a, b := c.A[0], c.A[1]
+		if b.IsConst() {
+			if k, ok := look(a); ok {
+				return smt.BoolC(k == b)
+			}
+		}
+		if a.IsConst() {
+			if k, ok := look(b); ok {
+				return smt.BoolC(k == a)
+			}
+		}
+	case smt.ONot:
+		return smt.Not(underFacts(f1, f2, c.A[0], depth+1))
+	case smt.OAnd:
+		x := underFacts(f1, f2, c.A[0], depth+1)
+		if x.IsFalse() {
+			return x
+		}
+		return smt.And(x, underFacts(f1, f2, c.A[1], depth+1))
+	case smt.OOr:
+		x := underFacts(f1, f2, c.A[0], depth+1)
+		if x.IsTrue() {
+			return x
+		}
+		return smt.Or(x, underFacts(f1, f2, c.A[1], depth+1))
+	case smt.OIte:
+		if c.S.K == smt.KBool {
+			g := underFacts(f1, f2, c.A[0], depth+1)
+			if g.IsTrue() {
+				return underFacts(f1, f2, c.A[1], depth+1)
+			}
+			if g.IsFalse() {
+				return underFacts(f1, f2, c.A[2], depth+1)
+			}
+		}
+	}
+	return c
+}
+
+func learnInto(f map[int]*smt.Term, c *smt.Term, depth int) {
+	if depth > 8 || c.IsConst() {
+		return
+	}
+	f[c.ID] = smt.True
+	switch c.Op {
+	case smt.OEq:
+		a, b := c.A[0], c.A[1]
+		if b.IsConst() && !a.IsConst() {
+			f[a.ID] = b
+		} else if a.IsConst() && !b.IsConst() {
+			f[b.ID] = a
+		}
+	case smt.OAnd:
+		learnInto(f, c.A[0], depth+1)
+		learnInto(f, c.A[1], depth+1)
+	case smt.ONot:
+		x := c.A[0]
+		f[x.ID] = smt.False
+		if x.Op == smt.OOr { // ¬(a ∨ b) = ¬a ∧ ¬b
+			learnInto(f, smt.Not(x.A[0]), depth+1)
+			learnInto(f, smt.Not(x.A[1]), depth+1)
+		}
+	}
+}
+
+func (st *State) learn(c *smt.Term, depth int) {
+	if st.facts == nil {
+		st.facts = map[int]*smt.Term{}
+	}
+	learnInto(st.facts, c, depth)
+	// conditions that are not plain facts are kept for later unit-propagation style checks
+	if c.Op == smt.OOr || (c.Op == smt.OIte && c.S.K == smt.KBool) {
+		st.clauses = append(st.clauses[:len(st.clauses):len(st.clauses)], c)
+	} else if c.Op == smt.OAnd {
+		st.collectClauses(c, 0)
+	}
+}
+
+func (st *State) collectClauses(c *smt.Term, depth int) {
+	if depth > 8 {
+		return
+	}
+	switch c.Op {
+	case smt.OAnd:
+		st.collectClauses(c.A[0], depth+1)
+		st.collectClauses(c.A[1], depth+1)
+	case smt.OOr:
+		st.clauses = append(st.clauses[:len(st.clauses):len(st.clauses)], c)
+	case smt.OIte:
+		if c.S.K == smt.KBool {
+			st.clauses = append(st.clauses[:len(st.clauses):len(st.clauses)], c)
+		}
+	}
+}
+
+// infeasible reports whether adding c contradicts a remembered clause after one round of propagation.
+func (st *State) infeasible(c *smt.Term) bool {
+	if st.under(c, 0).IsFalse() {
+		return true
+	}
+	if len(st.clauses) == 0 {
+		return false
+	}
+	tmp := map[int]*smt.Term{}
+	learnInto(tmp, c, 0)
+	for _, cl := range st.clauses {
+		if underFacts(tmp, st.facts, cl, 0).IsFalse() {
+			return true
+		}
+	}
+	return false
+}
+
+
 
 type deferEntry struct {
 	G    *smt.Term
@@ -28,6 +170,7 @@ type Frame struct {
 	ret      Value
 	visits   map[*ssa.BasicBlock]int
 	depth    int
+	startIdx int // resume in the middle of a block (used when paths are split at an instruction)
 }
 
 func (fr *Frame) clone() *Frame {
@@ -48,15 +191,28 @@ func (st *State) clone() *State {
 	for k, v := range st.heap {
 		n.heap[k] = v
 	}
+	n.clauses = st.clauses
+	if len(st.facts) > 0 {
+		n.facts = make(map[int]*smt.Term, len(st.facts)+2)
+		for k, v := range st.facts {
+			n.facts[k] = v
+		}
+	}
 	return n
 }
 
 func (st *State) fork(c *smt.Term) *State {
 	n := st.clone()
+	if st.infeasible(c) {
+		n.pc = smt.False
+		n.dead = true
+		return n
+	}
 	n.pc = smt.And(st.pc, c)
 	if n.pc.IsFalse() {
 		n.dead = true
 	}
+	n.learn(c, 0)
 	return n
 }
 
@@ -67,10 +223,16 @@ func (st *State) kill() {
 
 // assume restricts the path condition.
 func (st *State) assume(c *smt.Term) {
+	if st.infeasible(c) {
+		st.pc = smt.False
+		st.dead = true
+		return
+	}
 	st.pc = smt.And(st.pc, c)
 	if st.pc.IsFalse() {
 		st.dead = true
 	}
+	st.learn(c, 0)
 }
 
 // mergeInto makes dst the merge of s1 (taken iff c) and s2.
@@ -81,10 +243,10 @@ func mergeStates(dst *State, c *smt.Term, s1, s2 *State) {
 		dst.pc = smt.False
 		return
 	case s1.dead:
-		dst.heap, dst.pc, dst.dead = s2.heap, s2.pc, false
+		dst.heap, dst.pc, dst.dead, dst.facts, dst.clauses = s2.heap, s2.pc, false, s2.facts, s2.clauses
 		return
 	case s2.dead:
-		dst.heap, dst.pc, dst.dead = s1.heap, s1.pc, false
+		dst.heap, dst.pc, dst.dead, dst.facts, dst.clauses = s1.heap, s1.pc, false, s1.facts, s1.clauses
 		return
 	}
 	h := make(map[int]Value, len(s1.heap)+8)
@@ -107,6 +269,21 @@ func mergeStates(dst *State, c *smt.Term, s1, s2 *State) {
 	dst.heap = h
 	dst.pc = smt.Or(s1.pc, s2.pc)
 	dst.dead = false
+	var f map[int]*smt.Term
+	for k, v := range s1.facts {
+		if w, ok := s2.facts[k]; ok && w == v {
+			if f == nil {
+				f = map[int]*smt.Term{}
+			}
+			f[k] = v
+		}
+	}
+	dst.facts = f
+	i := 0
+	for i < len(s1.clauses) && i < len(s2.clauses) && s1.clauses[i] == s2.clauses[i] {
+		i++
+	}
+	dst.clauses = s1.clauses[:i:i]
 }
 
 func mergeFrames(dst *Frame, c *smt.Term, s1, s2 *State, f1, f2 *Frame) {
@@ -268,6 +445,10 @@ func mergeV(c *smt.Term, a, b Value) Value {
 		if y, ok := b.(*ChanV); ok && x.Obj == y.Obj {
 			return x
 		}
+	case *IterV:
+		if y, ok := b.(*IterV); ok && x.Obj == y.Obj {
+			return x
+		}
 	case *NilV:
 		if _, ok := b.(*NilV); ok {
 			return x
@@ -326,6 +507,49 @@ func mkChoice(c *smt.Term, a, b Value) Value {
 }
 
 func mergeMapC(c *smt.Term, x, y *MapC) *MapC {
+	if x.Arr {
+		cand := x.Cand
+		if len(y.Cand) != len(x.Cand) || (len(x.Cand) > 0 && x.Cand[len(x.Cand)-1] != y.Cand[len(y.Cand)-1]) {
+			seen := map[int]bool{}
+			cand = nil
+			for _, k := range x.Cand {
+				if !seen[k.ID] {
+					seen[k.ID] = true
+					cand = append(cand, k)
+				}
+			}
+			for _, k := range y.Cand {
+				if !seen[k.ID] {
+					seen[k.ID] = true
+					cand = append(cand, k)
+				}
+			}
+		}
+		var sure map[uint64]bool
+		if len(x.Sure) > 0 && len(y.Sure) > 0 {
+			same := len(x.Sure) == len(y.Sure)
+			if same {
+				for k := range x.Sure {
+					if !y.Sure[k] {
+						same = false
+						break
+					}
+				}
+			}
+			if same {
+				sure = x.Sure
+			} else {
+				sure = map[uint64]bool{}
+				for k := range x.Sure {
+					if y.Sure[k] {
+						sure[k] = true
+					}
+				}
+			}
+		}
+		return &MapC{KT: x.KT, VT: x.VT, Arr: true, Pres: smt.IteArr(c, x.Pres, y.Pres), Val: smt.IteArr(c, x.Val, y.Val),
+			Count: smt.Ite(c, x.Count, y.Count), Cand: cand, Sure: sure}
+	}
 	idx := make(map[string]int, len(y.Entries))
 	for i, e := range y.Entries {
 		idx[keyIdent(e.K)] = i
@@ -401,11 +625,15 @@ func mergeChanC(c *smt.Term, x, y *ChanC) *ChanC {
 
 func mergeIterC(c *smt.Term, x, y *IterC) *IterC {
 	if x.MapObj != y.MapObj || len(x.Keys) != len(y.Keys) || x.IsStr != y.IsStr || x.Pos != y.Pos {
-		panic(unsupported("merge of diverged iterators"))
+		return &IterC{Invalid: true}
 	}
 	tv := make([]*smt.Term, len(x.ToVisit))
 	for i := range tv {
 		tv[i] = smt.Ite(c, x.ToVisit[i], y.ToVisit[i])
 	}
-	return &IterC{MapObj: x.MapObj, Keys: x.Keys, ToVisit: tv, Str: x.Str, Pos: x.Pos, IsStr: x.IsStr}
+	start := x.Start
+	if y.Start < start {
+		start = y.Start
+	}
+	return &IterC{MapObj: x.MapObj, Keys: x.Keys, ToVisit: tv, Str: x.Str, Pos: x.Pos, IsStr: x.IsStr, Start: start, Distinct: x.Distinct && y.Distinct}
 }
